@@ -222,7 +222,13 @@ impl<const N: usize> AEADCipherCodec<N> {
             self.decoder = Some(decoder);
             if matches!(session.mode, Mode::Server) && session.address.is_none() {
                 session.address = Some(address::decode(&mut via)?);
+                if via.remaining() < 2 {
+                    bail!("request header ends before the padding length");
+                }
                 let padding_len = via.get_u16();
+                if via.remaining() < padding_len as usize {
+                    bail!("padding length {} exceeds the {} bytes left in the request header", padding_len, via.remaining());
+                }
                 via.advance(padding_len as usize);
             }
             return Ok(Some(via));
